@@ -167,6 +167,18 @@ AdmCa(pre, v, f, ctx) ==
   ELSE v = pre.ca
 
 (*************************** C10 Comm-B fields ****************************)
+\* A reply is ONE register (explicit 2,0 / 3,0 by its BDS byte, otherwise the first of 1,7 > 4,0 > 5,0 > 6,0 whose rules it
+\* satisfies): the parameters of at most one register change with it.  A reply that is a valid BDS 5,0 does not carry a
+\* heading, however much its bits also look like a BDS 6,0.
+RegisterGroups(pre, post) ==
+  << <<post.caps[3], post.caps[5], post.caps[6]>> # <<pre.caps[3], pre.caps[5], pre.caps[6]>>,
+     post.cs # pre.cs,
+     post.thr # pre.thr,
+     post.sel # pre.sel \/ post.baro # pre.baro,
+     post.roll # pre.roll \/ post.tar # pre.tar \/ post.tas # pre.tas \/ post.gs # pre.gs \/ post.trk # pre.trk,
+     post.hdg # pre.hdg \/ post.ias # pre.ias \/ post.mach # pre.mach \/ post.vr # pre.vr >>
+OneRegister(pre, post) == LET g == RegisterGroups(pre, post) IN \A i, j \in 1..6 : (g[i] /\ g[j]) => i = j
+
 AdmCaps(pre, v, f, ctx) ==
   IF Free(f) THEN TRUE
   ELSE IF IsCommB(f) THEN
